@@ -69,3 +69,16 @@ Proof.
   split; [vm_compute; reflexivity|].
   eexists. split; [vm_compute; reflexivity|]. vm_compute. reflexivity.
 Qed.
+
+(* Closed form of the returned vector (so the result is unique): for a grid of distinct points,
+   weights[j + k*len_g] is the k-th derivative at the centre of the Lagrange basis polynomial of
+   node j over the whole grid. *)
+Theorem fornberg_closed_form_plain :
+  forall (grid : list Qc) (around : Qc) (max_deriv : N),
+    NoDup grid -> guard_size (length grid) max_deriv = true ->
+    exists w : list FdiffModel.val,
+      fdiff grid max_deriv around = Ok w /\
+      forall j k : nat, lt j (length grid) -> le k (N.to_nat max_deriv) ->
+        nth (Nat.add j (Nat.mul k (length grid))) w VNan
+        = VQ (peval (pderivn k (lagrange grid j)) around).
+Proof. exact (@fornberg_closed_form). Qed.
